@@ -556,6 +556,11 @@ func c10SubstCode93(r *fw.Rec) {
 	} else {
 		text = c10Text(rng, 1+rng.Intn(12), "Ulcd")
 	}
+	if rng.Intn(4) == 0 {
+		// long symbols: the check weights wrap around (C after 20 characters, K after 15), more than once
+		text = c10FromAlphabet(rng, onedref.Code93Alphabet[:43], 28+rng.Intn(50))
+		r.Tally("code93_long_symbols")
+	}
 	vals, ok := onedref.Code93Values([]byte(text))
 	if !ok {
 		r.Inconclusive("reference encoder refused " + odQuote(text))
@@ -1180,6 +1185,8 @@ func c10(c *fw.Ctx) {
 	c.Floor("code39_substitutions_refused", 20000)
 	c.Floor("front_end_results_verify", 2000)
 	c.Floor("retained_results_unchanged", 2000)
+	c.Floor("stale_twin_after_valid_symbol_not_returned", 10000)
+	c.Floor("code93_long_symbols", 10)
 	c.Floor("code39_symbols_with_check_character_read", 100)
 	c.Floor("upce_expansions_compared", 2000000)
 	c.Floor("suppressible_numbers_rule_1", 600000)
@@ -1293,6 +1300,19 @@ func c10Retained(r *fw.Rec) {
 		r.Evals(1)
 		if !stale && err == nil && res.GetText() == full {
 			keep = append(keep, kept{res, full})
+			// directly afterwards, on the same instance: the same number with each of the nine
+			// other check digits - whatever the reader remembers of the symbol it just verified
+			for d := 1; d <= 9; d++ {
+				wrong := payload + string(rune('0'+(s.check(payload)+d)%10))
+				r2, e2 := odDecode(rd, odRender(s.pattern(wrong), 12, 12, 1, 1), nil)
+				r.Evals(1)
+				if e2 == nil && !c10VerifiesAs(r2.GetBarcodeFormat(), r2.GetText()) {
+					r.Violation("model-mismatch", "upcean:stale-symbol-read-right-after-the-valid-one", fmt.Sprintf("%s reader: directly after reading %s, the symbol %s (same digits, wrong check digit) was returned as %s, which does not verify", s.name, full, wrong, r2.GetText()),
+						map[string]interface{}{"symbology": s.name, "valid": full, "stale": wrong, "returned": r2.GetText()})
+					return
+				}
+				r.Tally("stale_twin_after_valid_symbol_not_returned")
+			}
 		}
 	}
 	for _, k := range keep {
